@@ -239,6 +239,73 @@ def _expand_one(fx, fn, bi, t, blocks, locals_):
         blocks[bi]["term"] = {"k": "goto", "target": b0, "span": t["span"], "expanded": o}
         return True
 
+    # ---------------- anyhow::Context ----------------
+    if o in ("anyhow::Context::context", "anyhow::Context::with_context") and len(args) == 2:
+        # `r.context(c)` / `r.with_context(|| c)`: Ok passes through, an Err stays an Err (wrapped with a message);
+        # on an Option receiver None becomes an Err
+        head, ga = split_generics(tys[0] if tys else "")
+        cal = None
+        if o.endswith("with_context"):
+            cal = _callee_of(fx, fn, t, 1)
+            if cal is None:
+                return False
+        if head == RES and len(ga) == 2:
+            st = start("res")
+            if st is None:
+                return False
+            r, (T, E), b0 = st
+            ok_b, err_b = B.block(), B.block()
+            B.switch_discr(b0, r, RES, RES_V, tys[0], {"Ok": ok_b, "Err": err_b})
+            x = B.local(T)
+            e = B.local(E)
+            B.payload(ok_b, x, r, "Ok")
+            B.wrap(ok_b, dest, RES, "Ok", {"mv": {"l": x}})
+            B.goto(ok_b, end)
+            B.payload(err_b, e, r, "Err")
+            cur = err_b
+            if cal is not None:
+                c_ = B.local(_ret_ty(fx, cal))
+                k = B.block()
+                B.call_fnlike(cur, cal, [], [], c_, _ret_ty(fx, cal), k)
+                cur = k
+            resid = B.local("core::result::Result<core::convert::Infallible, %s>" % E)
+            B.wrap(cur, resid, RES, "Err", {"mv": {"l": e}})
+            blocks[cur]["term"] = {
+                "k": "call", "span": t["span"],
+                "fn": {"orig": "core::ops::try_trait::FromResidual::from_residual", "kind": "item", "local": False,
+                       "path": "<core::result::Result<T, F> as core::ops::try_trait::FromResidual<core::result::Result<core::convert::Infallible, E>>>::from_residual"},
+                "args": [{"mv": {"l": resid}}], "arg_tys": ["core::result::Result<core::convert::Infallible, %s>" % E],
+                "dest": {"l": dest}, "dest_ty": dty, "target": end}
+            blocks[bi]["term"] = {"k": "goto", "target": b0, "span": t["span"], "expanded": o}
+            return True
+        if head == OPT and len(ga) == 1:
+            st = start("opt")
+            if st is None:
+                return False
+            r, (T,), b0 = st
+            some_b, none_b = B.block(), B.block()
+            B.switch_discr(b0, r, OPT, OPT_V, tys[0], {"Some": some_b, "None": none_b})
+            x = B.local(T)
+            B.payload(some_b, x, r, "Some")
+            B.wrap(some_b, dest, RES, "Ok", {"mv": {"l": x}})
+            B.goto(some_b, end)
+            cur = none_b
+            if cal is not None:
+                c_ = B.local(_ret_ty(fx, cal))
+                k = B.block()
+                B.call_fnlike(cur, cal, [], [], c_, _ret_ty(fx, cal), k)
+                cur = k
+            y = B.local("anyhow::Error")
+            k2 = B.block()
+            blocks[cur]["term"] = {"k": "call", "span": t["span"],
+                                   "fn": {"orig": "anyhow::Error::msg", "path": "anyhow::Error::msg", "kind": "item", "local": False},
+                                   "args": [], "arg_tys": [], "dest": {"l": y}, "dest_ty": "anyhow::Error", "target": k2}
+            B.wrap(k2, dest, RES, "Err", {"mv": {"l": y}})
+            B.goto(k2, end)
+            blocks[bi]["term"] = {"k": "goto", "target": b0, "span": t["span"], "expanded": o}
+            return True
+        return False
+
     if o.startswith(R) and o[len(R):] in ("map", "map_err", "and_then", "or_else", "unwrap_or_else", "is_ok_and", "is_err_and", "map_or"):
         m = o[len(R):]
         ci = 2 if m == "map_or" else 1
@@ -716,7 +783,7 @@ def _expand_nocache(fx, fn):
             continue
         o = (t.get("fn") or {}).get("orig") or ""
         if not o.startswith((R, O, I, "core::bool::<impl bool>::", "core::option::Option::<core::result::Result",
-                             "core::result::Result::<core::option::Option")):
+                             "core::result::Result::<core::option::Option", "anyhow::Context::")):
             continue
         try:
             if _expand_one(fx, tmp, bi, t, blocks, locals_):
@@ -746,7 +813,7 @@ def expanded(fx, fn):
         if t["k"] == "call" and not b.get("cleanup"):
             o = (t.get("fn") or {}).get("orig") or ""
             if o.startswith((R, O, I, "core::bool::<impl bool>::", "core::option::Option::<core::result::Result",
-                             "core::result::Result::<core::option::Option")):
+                             "core::result::Result::<core::option::Option", "anyhow::Context::")):
                 hit = True
                 break
     if not hit:
